@@ -95,41 +95,42 @@ Definition link (c : @abf_cfg R) (s : @abf_state R) (p : @abf_in R * @abf_out R)
   s_started s = true /\
   s_fbin s = bins Rops c (i_x (fst p)) /\
   (forall k, (k < c_nd c)%nat ->
-     vget Rops (s_eng s) k = if cvapply c k then vget Rops (i_e (fst p)) k + vget Rops (o_f (snd p)) k
+     vget Rops (s_eng s) k = if cvapply c (fst p) k then vget Rops (i_e (fst p)) k + vget Rops (o_f (snd p)) k
                              else vget Rops (i_e (fst p)) k) /\
   (forall k, (k < c_nd c)%nat -> vget Rops (s_fprev s) k = vget Rops (o_fapp (snd p)) k) /\
   (forall k, (k < c_nd c)%nat -> bget (c_subtract c) k = true -> vget Rops (s_fold s) k = vget Rops (o_f (snd p)) k) /\
   (forall k, (k < c_nd c)%nat -> vget Rops (s_fj s) k = vget Rops (i_j (fst p)) k) /\
-  (* a variable to which no bias applies a force: the ABF force is 0, and so is colvar::f unless hideJacobian *)
-  (forall k, (k < c_nd c)%nat -> cvapply c k = false ->
-     vget Rops (o_fapp (snd p)) k = 0 /\ (c_hidej c = false -> vget Rops (o_f (snd p)) k = 0)).
+  (* a variable to which no bias applies a force: the ABF force is 0, and so is colvar::f *)
+  (forall k, (k < c_nd c)%nat -> cvapply c (fst p) k = false ->
+     vget Rops (o_fapp (snd p)) k = 0 /\ vget Rops (o_f (snd p)) k = 0).
 
 Lemma link_step c s i : link c (fst (abf_step Rops c s i)) (i, snd (abf_step Rops c s i)).
 Proof.
   unfold abf_step, link. cbn [fst snd s_started s_fbin s_eng s_fprev s_fold s_fj o_f o_fapp].
   split; [reflexivity|]. split; [reflexivity|]. split; [|split; [|split; [|split]]].
-  - intros k Hk. unfold st_eng. rewrite vget_vbuild by exact Hk. destruct (cvapply c k); reflexivity.
+  - intros k Hk. unfold st_eng. rewrite vget_vbuild by exact Hk. cbn [fst]. destruct (cvapply c i k); reflexivity.
   - intros k Hk. reflexivity.
   - intros k Hk Hs. unfold st_fold. rewrite vget_vbuild by exact Hk. rewrite Hs. reflexivity.
   - intros k Hk. unfold st_fj. rewrite vget_vbuild by exact Hk. reflexivity.
-  - intros k Hk Hcv. unfold cvapply in Hcv. apply orb_false_iff in Hcv. destruct Hcv as [Ha Ho].
+  - intros k Hk Hcv. cbn [fst] in Hcv. pose proof Hcv as Hcv'.
+    unfold cvapply in Hcv. apply orb_false_iff in Hcv. destruct Hcv as [Ha Ho].
     assert (Hf : vget Rops (st_fapp Rops c s i) k = 0).
     { unfold st_fapp. rewrite vget_vbuild by exact Hk. unfold st_fabf. rewrite Ha. cbn [andb].
       rewrite vget_vzero. cbn [nmul Rops]. lra. }
-    split; [exact Hf|]. intros Hh. unfold st_f. rewrite vget_vbuild by exact Hk.
-    rewrite Hh, Hf. unfold oeff. rewrite Ho. cbn [nadd n0 Rops]. lra.
+    split; [exact Hf|]. unfold st_f. rewrite vget_vbuild by exact Hk.
+    rewrite Hcv', andb_false_r, Hf. unfold oeff. rewrite Ho. cbn [nadd n0 Rops]. lra.
 Qed.
 
 (* ---------------------------------------------------------------- one step, lagged convention *)
 
-(* side condition of the partial theorem: with hideJacobian in the lagged convention every variable has a
-   bias that applies forces to it (applyBias on, or another bias), so that the compensating force -fj
-   really reaches the atoms *)
-Definition jac_ok (c : @abf_cfg R) : Prop :=
-  c_hidej c = true -> c_same_step c = false -> forall k, (k < c_nd c)%nat -> cvapply c k = true.
+(* side condition of the partial theorem: with hideJacobian in the lagged convention applyBias is not
+   switched at run time: colvar::collect_cvc_total_forces decides whether the compensating force -fj is
+   contained in the force of the PREVIOUS step by looking at f_cv_apply_force NOW *)
+Definition steady (c : @abf_cfg R) (a : bool) (h : list (@abf_in R)) : Prop :=
+  c_hidej c = true -> c_same_step c = false -> Forall (fun i => i_apply i = a) h.
 
 Lemma sysf_lag c s i p k :
-  jac_ok c ->
+  (c_hidej c = true -> i_apply i = i_apply (fst p)) ->
   c_same_step c = false -> c_update c = true -> (0 <? fst (st_clk s i))%Z = true ->
   link c s p -> (k < c_nd c)%nat ->
   vget Rops (st_sysf Rops c s i) k = vget Rops (sample_force Rops c p) k.
@@ -141,14 +142,23 @@ Proof.
   rewrite Hupd, Hsame, Hrel. cbn [orb]. rewrite (Heng k Hk), (Hfj k Hk).
   unfold sample_force. rewrite vget_vbuild by exact Hk.
   unfold measured, own, jac, addj. rewrite Hsame.
-  destruct (cvapply c k) eqn:Hcv.
-  - destruct (bget (c_subtract c) k) eqn:Hs; destruct (c_hidej c) eqn:Hh;
-      cbn [andb orb negb nsub nadd n0 Rops];
-      try rewrite (Hfold k Hk Hs); try rewrite (Hfapp k Hk); lra.
-  - destruct (c_hidej c) eqn:Hh.
-    + (* excluded by jac_ok *)
-      rewrite (Hjok Hh Hsame k Hk) in Hcv. discriminate Hcv.
-    + destruct (Hnoapp k Hk Hcv) as [Hf0 Hof]. specialize (Hof eq_refl).
+  assert (Hcvi : c_hidej c = true -> cvapply c i k = cvapply c (fst p) k).
+  { intros Hh. unfold cvapply. rewrite (Hjok Hh). reflexivity. }
+  destruct (c_hidej c) eqn:Hh.
+  - rewrite (Hcvi eq_refl).
+    destruct (cvapply c (fst p) k) eqn:Hcv.
+    + destruct (bget (c_subtract c) k) eqn:Hs;
+        cbn [andb orb negb nsub nadd n0 Rops];
+        try rewrite (Hfold k Hk Hs); try rewrite (Hfapp k Hk); lra.
+    + destruct (Hnoapp k Hk Hcv) as [Hf0 Hof].
+      destruct (bget (c_subtract c) k) eqn:Hs;
+        cbn [andb orb negb nsub nadd n0 Rops];
+        try rewrite (Hfold k Hk Hs); try rewrite (Hfapp k Hk); lra.
+  - destruct (cvapply c (fst p) k) eqn:Hcv.
+    + destruct (bget (c_subtract c) k) eqn:Hs;
+        cbn [andb orb negb nsub nadd n0 Rops];
+        try rewrite (Hfold k Hk Hs); try rewrite (Hfapp k Hk); lra.
+    + destruct (Hnoapp k Hk Hcv) as [Hf0 Hof].
       destruct (bget (c_subtract c) k) eqn:Hs;
         cbn [andb orb negb nsub nadd n0 Rops];
         try rewrite (Hfold k Hk Hs); try rewrite (Hfapp k Hk); lra.
@@ -165,7 +175,7 @@ Proof.
 Qed.
 
 Lemma step_lag c s i p b :
-  jac_ok c -> c_same_step c = false -> c_szd c = false -> link c s p ->
+  (c_hidej c = true -> i_apply i = i_apply (fst p)) -> c_same_step c = false -> c_szd c = false -> link c s p ->
   let s1 := fst (abf_step Rops c s i) in
   let o := snd (abf_step Rops c s i) in
   let A := attributed_of c [(bins Rops c (i_x (fst p)), sample_force Rops c p, (o_rel o, o_cont o))] in
@@ -192,22 +202,28 @@ Proof.
   - split; [unfold cnt_of; cbn; lia | intros k Hk; unfold fsum_of; cbn; lra].
 Qed.
 
-Lemma run_lag c : jac_ok c -> c_same_step c = false -> c_szd c = false ->
+Lemma run_lag c : c_same_step c = false -> c_szd c = false ->
   forall h s p, link c s p ->
+    (c_hidej c = true -> Forall (fun i => i_apply i = i_apply (fst p)) h) ->
     forall b,
       let r := abf_run_from Rops c s h in
       let A := attributed_of c (deliveries_lag Rops c (Some p) (combine h (snd r))) in
       s_cnt (fst r) b = (s_cnt s b + cnt_of b A)%Z /\
       forall k, (k < c_nd c)%nat -> vget Rops (s_sum (fst r) b) k = vget Rops (s_sum s b) k - fsum_of k b A.
 Proof.
-  intros Hjok Hsame Hszd h. induction h as [|i h IH]; intros s p Hl b; cbn zeta.
+  intros Hsame Hszd h. induction h as [|i h IH]; intros s p Hl Hst b; cbn zeta.
   - cbn [abf_run_from fst snd combine deliveries_lag]. unfold attributed_of, cnt_of, fsum_of. cbn.
     split; [lia | intros k Hk; lra].
   - cbn [abf_run_from fst snd combine deliveries_lag] in *.
     pose proof (link_step c s i) as Hl1.
-    specialize (IH (fst (abf_step Rops c s i)) (i, snd (abf_step Rops c s i)) Hl1 b).
+    assert (Hhead : c_hidej c = true -> i_apply i = i_apply (fst p)).
+    { intros Hh. specialize (Hst Hh). inversion Hst as [|x l Hx Hr]; subst. exact Hx. }
+    assert (Htail : c_hidej c = true -> Forall (fun i' => i_apply i' = i_apply (fst (i, snd (abf_step Rops c s i)))) h).
+    { intros Hh. specialize (Hst Hh). inversion Hst as [|x l Hx Hr]; subst. cbn [fst].
+      rewrite Hx. exact Hr. }
+    specialize (IH (fst (abf_step Rops c s i)) (i, snd (abf_step Rops c s i)) Hl1 Htail b).
     cbn zeta in IH. destruct IH as [IHc IHs].
-    pose proof (step_lag c s i p b Hjok Hsame Hszd Hl) as Hstep. cbn zeta in Hstep.
+    pose proof (step_lag c s i p b Hhead Hsame Hszd Hl) as Hstep. cbn zeta in Hstep.
     destruct Hstep as [Sc Ss].
     rewrite attributed_of_app, cnt_of_app. split.
     + rewrite IHc, Sc. lia.
@@ -273,50 +289,120 @@ Proof.
     + intros k Hk. rewrite fsum_of_app. unfold deliveries_same in IHs. rewrite (IHs k Hk), (Ss k Hk). lra.
 Qed.
 
-(* ---------------------------------------------------------------- T1 (partial: jac_ok) *)
+(* ---------------------------------------------------------------- T1 *)
 
 (* stepZeroData is only available with same-step total forces (colvarbias_abf::init:
    provide(f_cvb_step_zero_data, false) otherwise; the configuration is then rejected) *)
 Definition wf_cfg (c : @abf_cfg R) : Prop := c_szd c = true -> c_same_step c = true.
 
 Local Notation trace_of := (trace_of Rops).
+Local Notation trace_from := (trace_from Rops).
 
-Lemma first_step_lag c i :
-  c_szd c = false -> c_same_step c = false -> st_doacc Rops c (abf_init Rops c) i = false.
+(* a state in which no step was made yet: the freshly initialised bias, with or without data read
+   through inputPrefix *)
+Definition fresh (s : @abf_state R) : Prop := s_started s = false /\ s_rel s = 0%Z.
+
+Lemma first_step_lag c s i :
+  fresh s -> c_szd c = false -> c_same_step c = false -> st_doacc Rops c s i = false.
 Proof.
-  intros Hszd Hsame. unfold st_doacc, st_clk, abf_init, clock. cbn [s_started s_rel fst snd].
-  rewrite Hszd. cbn. reflexivity.
+  intros [Hst Hrel] Hszd Hsame. unfold st_doacc, st_clk, clock. rewrite Hst, Hrel.
+  cbn [fst snd]. rewrite Hszd. cbn. reflexivity.
 Qed.
 
-Theorem abf_state_is_sample_sum (c : @abf_cfg R) (h : list (@abf_in R)) (b : idx) :
-  wf_cfg c -> jac_ok c ->
-  s_cnt (fst (abf_run Rops c h)) b = cnt_of b (attributed Rops c (trace_of c h)) /\
-  forall k, (k < c_nd c)%nat ->
-    vget Rops (s_sum (fst (abf_run Rops c h)) b) k = - fsum_of k b (attributed Rops c (trace_of c h)).
+Lemma steady_forall c a h : steady c a h -> c_same_step c = false -> c_hidej c = true -> Forall (fun i => i_apply i = a) h.
+Proof. intros H Hs Hh. exact (H Hh Hs). Qed.
+
+(* from ANY fresh state s0: what the history adds to the grids of s0 *)
+Theorem run_from_fresh (c : @abf_cfg R) (s0 : @abf_state R) (h : list (@abf_in R)) (b : idx) (a : bool) :
+  wf_cfg c -> steady c a h -> fresh s0 ->
+  let r := abf_run_from Rops c s0 h in
+  let S := attributed Rops c (trace_from c s0 h) in
+  s_cnt (fst r) b = (s_cnt s0 b + cnt_of b S)%Z /\
+  forall k, (k < c_nd c)%nat -> vget Rops (s_sum (fst r) b) k = vget Rops (s_sum s0 b) k - fsum_of k b S.
 Proof.
-  intros Hwf Hjok. unfold attributed, deliveries, trace_of, abf_run in *.
+  intros Hwf Hsteady Hfresh. cbn zeta. unfold attributed, deliveries, ABFModel.trace_from.
   destruct (c_same_step c) eqn:Hsame.
-  - pose proof (run_same c Hsame h (abf_init Rops c) b) as H. cbn zeta in H. destruct H as [Hc Hs].
-    split.
-    + rewrite Hc. unfold abf_init. cbn [s_cnt]. lia.
-    + intros k Hk. rewrite (Hs k Hk). unfold abf_init. cbn [s_sum]. rewrite vget_vzero. lra.
+  - pose proof (run_same c Hsame h s0 b) as H. cbn zeta in H. exact H.
   - assert (Hszd : c_szd c = false).
     { destruct (c_szd c) eqn:E; [|reflexivity]. unfold wf_cfg in Hwf. specialize (Hwf E). congruence. }
     destruct h as [|i0 h].
     + cbn [abf_run_from fst snd combine deliveries_lag]. unfold attributed_of. cbn [filter map].
-      unfold cnt_of, fsum_of, samples_in. cbn [filter map length gsum n0 Rops]. unfold abf_init. cbn [s_cnt s_sum].
-      split; [reflexivity | intros k Hk; rewrite vget_vzero; lra].
+      unfold cnt_of, fsum_of, samples_in. cbn [filter map length gsum n0 Rops].
+      split; [lia | intros k Hk; lra].
     + cbn [abf_run_from fst snd combine deliveries_lag app] in *.
-      pose proof (link_step c (abf_init Rops c) i0) as Hl.
-      pose proof (run_lag c Hjok Hsame Hszd h _ _ Hl b) as H. cbn zeta in H. destruct H as [Hc Hs].
-      assert (Hc0 : s_cnt (fst (abf_step Rops c (abf_init Rops c) i0)) b = 0%Z).
+      pose proof (link_step c s0 i0) as Hl.
+      assert (Hst : c_hidej c = true -> Forall (fun i' => i_apply i' = i_apply (fst (i0, snd (abf_step Rops c s0 i0)))) h).
+      { intros Hh. pose proof (steady_forall c a _ Hsteady Hsame Hh) as HF.
+        inversion HF as [|x l Hx Hr]. cbn [fst]. rewrite Hx. exact Hr. }
+      pose proof (run_lag c Hsame Hszd h _ _ Hl Hst b) as H. cbn zeta in H. destruct H as [Hc Hs].
+      assert (Hc0 : s_cnt (fst (abf_step Rops c s0 i0)) b = s_cnt s0 b).
       { unfold abf_step. cbn [fst s_cnt]. unfold st_cnt. rewrite first_step_lag by assumption. reflexivity. }
-      assert (Hs0 : forall k, vget Rops (s_sum (fst (abf_step Rops c (abf_init Rops c) i0)) b) k = 0).
-      { intros k. unfold abf_step. cbn [fst s_sum]. unfold st_sum. rewrite first_step_lag by assumption.
-        unfold abf_init. cbn [s_sum]. apply vget_vzero. }
+      assert (Hs0 : s_sum (fst (abf_step Rops c s0 i0)) b = s_sum s0 b).
+      { unfold abf_step. cbn [fst s_sum]. unfold st_sum. rewrite first_step_lag by assumption. reflexivity. }
       split.
-      * rewrite Hc, Hc0. lia.
-      * intros k Hk. rewrite (Hs k Hk), Hs0. lra.
+      * rewrite Hc, Hc0. reflexivity.
+      * intros k Hk. rewrite (Hs k Hk), Hs0. reflexivity.
+Qed.
+
+Lemma fresh_init c : fresh (abf_init Rops c).
+Proof. split; reflexivity. Qed.
+Lemma fresh_add_data c s d : fresh s -> fresh (abf_add_data Rops c s d).
+Proof. intros [H1 H2]. split; assumption. Qed.
+Lemma fresh_fold c l : forall s, fresh s -> fresh (fold_left (abf_add_data Rops c) l s).
+Proof. induction l as [|d l IH]; intros s H; cbn [fold_left]; [exact H | apply IH, fresh_add_data, H]. Qed.
+Lemma fresh_init_data c l : fresh (abf_init_data Rops c l).
+Proof. unfold abf_init_data. apply fresh_fold, fresh_init. Qed.
+
+(* what the data sets contain: the summed counts, and the summed gradient * count *)
+Fixpoint data_cnt (l : list (@dataset R)) (b : idx) : Z :=
+  match l with [] => 0%Z | d :: r => (fst d b + data_cnt r b)%Z end.
+Fixpoint data_sum (l : list (@dataset R)) (b : idx) (k : nat) : R :=
+  match l with [] => 0 | d :: r => vget Rops (snd d b) k * IZR (fst d b) + data_sum r b k end.
+
+Lemma fold_data_grids c l : forall s b,
+  s_cnt (fold_left (abf_add_data Rops c) l s) b = (s_cnt s b + data_cnt l b)%Z /\
+  forall k, (k < c_nd c)%nat ->
+    vget Rops (s_sum (fold_left (abf_add_data Rops c) l s) b) k = vget Rops (s_sum s b) k + data_sum l b k.
+Proof.
+  induction l as [|d l IH]; intros s b; cbn [fold_left data_cnt data_sum].
+  - split; [lia | intros k Hk; lra].
+  - destruct (IH (abf_add_data Rops c s d) b) as [Hc Hs]. split.
+    + rewrite Hc. unfold abf_add_data. cbn [s_cnt]. lia.
+    + intros k Hk. rewrite (Hs k Hk). unfold abf_add_data. cbn [s_sum]. rewrite vget_vbuild by exact Hk.
+      cbn [nadd nmul nofZ Rops]. lra.
+Qed.
+
+Theorem abf_state_is_sample_sum (c : @abf_cfg R) (h : list (@abf_in R)) (b : idx) (a : bool) :
+  wf_cfg c -> steady c a h ->
+  s_cnt (fst (abf_run Rops c h)) b = cnt_of b (attributed Rops c (trace_of c h)) /\
+  forall k, (k < c_nd c)%nat ->
+    vget Rops (s_sum (fst (abf_run Rops c h)) b) k = - fsum_of k b (attributed Rops c (trace_of c h)).
+Proof.
+  intros Hwf Hst.
+  pose proof (run_from_fresh c (abf_init Rops c) h b a Hwf Hst (fresh_init c)) as H. cbn zeta in H.
+  destruct H as [Hc Hs]. unfold abf_run, ABFModel.trace_of. split.
+  - rewrite Hc. unfold abf_init. cbn [s_cnt]. lia.
+  - intros k Hk. rewrite (Hs k Hk). unfold abf_init. cbn [s_sum]. rewrite vget_vzero. lra.
+Qed.
+
+(* inputPrefix: the grids after a history started from data read from files are that data plus the samples
+   of the history: count = counts read + number, sum = sum of gradient read * count read - sum of the forces *)
+Theorem abf_state_with_input_data (c : @abf_cfg R) (l : list (@dataset R))
+        (h : list (@abf_in R)) (b : idx) (a : bool) :
+  wf_cfg c -> steady c a h ->
+  let s0 := abf_init_data Rops c l in
+  let r := abf_run_data Rops c l h in
+  let S := attributed Rops c (trace_from c s0 h) in
+  s_cnt (fst r) b = (data_cnt l b + cnt_of b S)%Z /\
+  forall k, (k < c_nd c)%nat ->
+    vget Rops (s_sum (fst r) b) k = data_sum l b k - fsum_of k b S.
+Proof.
+  intros Hwf Hst. cbn zeta.
+  pose proof (run_from_fresh c (abf_init_data Rops c l) h b a Hwf Hst (fresh_init_data c l)) as H.
+  cbn zeta in H. destruct H as [Hc Hs]. unfold abf_run_data.
+  destruct (fold_data_grids c l (abf_init Rops c) b) as [Dc Ds]. fold (abf_init_data Rops c l) in Dc, Ds. split.
+  - rewrite Hc, Dc. unfold abf_init. cbn [s_cnt]. lia.
+  - intros k Hk. rewrite (Hs k Hk), (Ds k Hk). unfold abf_init. cbn [s_sum]. rewrite vget_vzero. lra.
 Qed.
 
 (* ---------------------------------------------------------------- whole-vector form *)
@@ -345,8 +431,8 @@ Proof.
   apply IH. unfold abf_step. cbn [fst s_sum]. apply sum_length_step. exact H.
 Qed.
 
-Theorem abf_sum_vector (c : @abf_cfg R) (h : list (@abf_in R)) (b : idx) :
-  wf_cfg c -> jac_ok c ->
+Theorem abf_sum_vector (c : @abf_cfg R) (h : list (@abf_in R)) (b : idx) (a : bool) :
+  wf_cfg c -> steady c a h ->
   s_sum (fst (abf_run Rops c h)) b
   = vbuild (c_nd c) (fun k => - fsum_of k b (attributed Rops c (ABFModel.trace_of Rops c h))).
 Proof.
@@ -354,7 +440,7 @@ Proof.
   - unfold abf_run. apply sum_length_run. intros b'. unfold abf_init. cbn [s_sum]. apply vbuild_length.
   - apply vbuild_length.
   - intros k Hk. rewrite vget_vbuild by exact Hk.
-    destruct (abf_state_is_sample_sum c h b Hwf Hjok) as [_ Hs]. apply Hs. exact Hk.
+    destruct (abf_state_is_sample_sum c h b a Hwf Hjok) as [_ Hs]. apply Hs. exact Hk.
 Qed.
 
 (* ---------------------------------------------------------------- the stored gradient is minus the mean *)
@@ -367,8 +453,8 @@ Lemma cnt_of_nonneg b (S : list (idx * @vec R)) : (0 <= cnt_of b S)%Z.
 Proof. unfold cnt_of. lia. Qed.
 
 (* [grad_out] is colvar_grid_gradient::value_output, what the state file and the .grad file contain *)
-Theorem stored_gradient_is_minus_mean (c : @abf_cfg R) (h : list (@abf_in R)) (b : idx) (k : nat) :
-  wf_cfg c -> jac_ok c -> (k < c_nd c)%nat ->
+Theorem stored_gradient_is_minus_mean (c : @abf_cfg R) (h : list (@abf_in R)) (b : idx) (k : nat) (a : bool) :
+  wf_cfg c -> steady c a h -> (k < c_nd c)%nat ->
   let s := fst (abf_run Rops c h) in
   let S := attributed Rops c (ABFModel.trace_of Rops c h) in
   s_cnt s b = cnt_of b S /\
@@ -376,7 +462,7 @@ Theorem stored_gradient_is_minus_mean (c : @abf_cfg R) (h : list (@abf_in R)) (b
   (cnt_of b S = 0%Z -> grad_out Rops (s_cnt s) (s_sum s) b k = 0).
 Proof.
   intros Hwf Hjok Hk. cbn zeta.
-  destruct (abf_state_is_sample_sum c h b Hwf Hjok) as [Hc Hs].
+  destruct (abf_state_is_sample_sum c h b a Hwf Hjok) as [Hc Hs].
   split; [exact Hc|]. unfold grad_out, mean_force. cbn [n0 n1 ndiv nmul nofZ Rops].
   rewrite Hc, (Hs k Hk). split.
   - intros Hpos. destruct (0 <? cnt_of b (attributed Rops c (ABFModel.trace_of Rops c h)))%Z eqn:E;
@@ -454,8 +540,8 @@ Definition ramped (c : @abf_cfg R) (cnt : idx -> Z) (sum : idx -> @vec R) (b : i
 Definition avg_ramped (c : @abf_cfg R) (cnt : idx -> Z) (sum : idx -> @vec R) : R :=
   rsum (map (fun i => ramped c cnt sum [i] 0) (zrange (zget (c_nx c) 0))) / IZR (zget (c_nx c) 0).
 
-Definition spec_force (c : @abf_cfg R) (cnt : idx -> Z) (sum : idx -> @vec R) (b : idx) (k : nat) : R :=
-  if c_apply c && index_ok c b then
+Definition spec_force (c : @abf_cfg R) (a : bool) (cnt : idx -> Z) (sum : idx -> @vec R) (b : idx) (k : nat) : R :=
+  if a && index_ok c b then
     let f := ramped c cnt sum b k
              - (if Nat.eqb (c_nd c) 1 && bget (c_periodic c) 0 then avg_ramped c cnt sum else 0) in
     if c_cap c then clip (vget Rops (c_maxf c) k) f else f
@@ -517,14 +603,14 @@ Proof.
       * nra.
 Qed.
 
-Theorem applied_force_spec c cnt sum b k :
+Theorem applied_force_spec c a cnt sum b k :
   (k < c_nd c)%nat -> (0 <= c_min c < c_full c)%Z -> (forall b', 0 <= cnt b')%Z ->
   (c_cap c = true -> 0 <= vget Rops (c_maxf c) k) ->
-  vget Rops (if c_apply c && index_ok c b then calc_biasing_force Rops c cnt sum b else vzero Rops (c_nd c)) k
-  = spec_force c cnt sum b k.
+  vget Rops (if a && index_ok c b then calc_biasing_force Rops c cnt sum b else vzero Rops (c_nd c)) k
+  = spec_force c a cnt sum b k.
 Proof.
   intros Hk Hmf Hcnt Hcap. unfold spec_force.
-  destruct (c_apply c && index_ok c b); [|apply vget_vzero].
+  destruct (a && index_ok c b); [|apply vget_vzero].
   unfold calc_biasing_force. cbv zeta.
   assert (H0 : vget Rops (vbuild (c_nd c) (fun k0 => nmul Rops (smooth_inverse_weight Rops c (cnt b)) (vget Rops (sum b) k0))) k
                = ramped c cnt sum b k).
@@ -558,7 +644,7 @@ Theorem applied_force_after_history c h i k :
   (k < c_nd c)%nat -> (0 <= c_min c < c_full c)%Z -> (c_cap c = true -> 0 <= vget Rops (c_maxf c) k) ->
   let s := fst (abf_run Rops c h) in
   let s1 := fst (abf_step Rops c s i) in
-  vget Rops (o_fabf (snd (abf_step Rops c s i))) k = spec_force c (s_cnt s1) (s_sum s1) (bins Rops c (i_x i)) k.
+  vget Rops (o_fabf (snd (abf_step Rops c s i))) k = spec_force c (i_apply i) (s_cnt s1) (s_sum s1) (bins Rops c (i_x i)) k.
 Proof.
   intros Hk Hmf Hcap. cbn zeta. unfold abf_step. cbn [fst snd o_fabf s_cnt s_sum].
   unfold st_fabf, st_bin. apply applied_force_spec; try assumption.
@@ -571,8 +657,8 @@ Qed.
 Definition ramped_neg_mean (c : @abf_cfg R) (S : list (idx * @vec R)) (b : idx) (k : nat) : R :=
   ramp c (cnt_of b S) * (if (0 <? cnt_of b S)%Z then - mean_force S b k else 0).
 
-Definition spec_force_samples (c : @abf_cfg R) (S : list (idx * @vec R)) (b : idx) (k : nat) : R :=
-  if c_apply c && index_ok c b then
+Definition spec_force_samples (c : @abf_cfg R) (a : bool) (S : list (idx * @vec R)) (b : idx) (k : nat) : R :=
+  if a && index_ok c b then
     let f := ramped_neg_mean c S b k
              - (if Nat.eqb (c_nd c) 1 && bget (c_periodic c) 0
                 then rsum (map (fun i => ramped_neg_mean c S [i] 0) (zrange (zget (c_nx c) 0))) / IZR (zget (c_nx c) 0)
@@ -590,14 +676,14 @@ Proof.
   f_equal. field. lra.
 Qed.
 
-Lemma spec_force_of_samples c (cnt : idx -> Z) (sum : idx -> @vec R) S b k :
+Lemma spec_force_of_samples c a (cnt : idx -> Z) (sum : idx -> @vec R) S b k :
   (k < c_nd c)%nat ->
   (forall b', cnt b' = cnt_of b' S) ->
   (forall b' k', (k' < c_nd c)%nat -> vget Rops (sum b') k' = - fsum_of k' b' S) ->
-  spec_force c cnt sum b k = spec_force_samples c S b k.
+  spec_force c a cnt sum b k = spec_force_samples c a S b k.
 Proof.
   intros Hk Hc Hs. unfold spec_force, spec_force_samples.
-  destruct (c_apply c && index_ok c b); [|reflexivity]. cbv zeta.
+  destruct (a && index_ok c b); [|reflexivity]. cbv zeta.
   rewrite (ramped_of_samples c cnt sum S b k (Hc b) (Hs b k Hk)).
   destruct (Nat.eqb (c_nd c) 1 && bget (c_periodic c) 0) eqn:E; [|reflexivity].
   apply andb_true_iff in E. destruct E as [End _]. apply Nat.eqb_eq in End.
@@ -610,18 +696,18 @@ Qed.
 
 (* After ANY history h followed by a step i: the ABF force of that step, in terms of the attributed
    samples of the whole history h ++ [i] *)
-Theorem applied_force_is_smoothed_negative_mean c h i k :
-  wf_cfg c -> jac_ok c -> (k < c_nd c)%nat -> (0 <= c_min c < c_full c)%Z ->
+Theorem applied_force_is_smoothed_negative_mean c h i k a0 :
+  wf_cfg c -> steady c a0 (h ++ [i]) -> (k < c_nd c)%nat -> (0 <= c_min c < c_full c)%Z ->
   (c_cap c = true -> 0 <= vget Rops (c_maxf c) k) ->
   vget Rops (o_fabf (snd (abf_step Rops c (fst (abf_run Rops c h)) i))) k
-  = spec_force_samples c (attributed Rops c (ABFModel.trace_of Rops c (h ++ [i]))) (bins Rops c (i_x i)) k.
+  = spec_force_samples c (i_apply i) (attributed Rops c (ABFModel.trace_of Rops c (h ++ [i]))) (bins Rops c (i_x i)) k.
 Proof.
   intros Hwf Hjok Hk Hmf Hcap.
   pose proof (applied_force_after_history c h i k Hk Hmf Hcap) as H. cbn zeta in H. rewrite H.
   rewrite <- run_snoc.
   apply spec_force_of_samples; [exact Hk | |].
-  - intros b'. apply (abf_state_is_sample_sum c (h ++ [i]) b' Hwf Hjok).
-  - intros b' k' Hk'. apply (abf_state_is_sample_sum c (h ++ [i]) b' Hwf Hjok). exact Hk'.
+  - intros b'. apply (abf_state_is_sample_sum c (h ++ [i]) b' a0 Hwf Hjok).
+  - intros b' k' Hk'. apply (abf_state_is_sample_sum c (h ++ [i]) b' a0 Hwf Hjok). exact Hk'.
 Qed.
 
 (* the force the bias hands to the variable is that force times the factor of the scaling grid at the
@@ -639,7 +725,7 @@ Proof. intros H. unfold sfac. rewrite H. reflexivity. Qed.
 
 (* outside the grid, or with applyBias off, the ABF force is zero *)
 Theorem no_force_outside c s i k :
-  c_apply c && index_ok c (bins Rops c (i_x i)) = false ->
+  i_apply i && index_ok c (bins Rops c (i_x i)) = false ->
   vget Rops (o_fabf (snd (abf_step Rops c s i))) k = 0.
 Proof.
   intros H. unfold abf_step. cbn [snd o_fabf]. unfold st_fabf, st_bin. rewrite H. apply vget_vzero.
@@ -662,14 +748,14 @@ Qed.
 
 (* for every content of the grid (any counts, any sums): no hypothesis on the sampling *)
 Theorem zero_mean_periodic c cnt sum :
-  c_nd c = 1%nat -> bget (c_periodic c) 0 = true -> c_apply c = true -> c_cap c = false ->
-  rsum (map (fun i => spec_force c cnt sum [i] 0) (zrange (zget (c_nx c) 0))) = 0.
+  c_nd c = 1%nat -> bget (c_periodic c) 0 = true -> c_cap c = false ->
+  rsum (map (fun i => spec_force c true cnt sum [i] 0) (zrange (zget (c_nx c) 0))) = 0.
 Proof.
-  intros Hnd Hper Happ Hcap.
+  intros Hnd Hper Hcap.
   set (n := zget (c_nx c) 0) in *.
   assert (Hterm : forall i, In i (zrange n) ->
-            spec_force c cnt sum [i] 0 = ramped c cnt sum [i] 0 - avg_ramped c cnt sum).
-  { intros i Hi. apply zrange_in in Hi. unfold spec_force. rewrite Happ, Hcap, Hnd, Hper.
+            spec_force c true cnt sum [i] 0 = ramped c cnt sum [i] 0 - avg_ramped c cnt sum).
+  { intros i Hi. apply zrange_in in Hi. unfold spec_force. rewrite Hcap, Hnd, Hper.
     assert (Hok : index_ok c [i] = true).
     { unfold index_ok. rewrite Hnd. cbn [seq forallb]. unfold zget at 1 2. cbn [nth]. fold n.
       rewrite andb_true_r. apply andb_true_iff. split; [apply Z.leb_le | apply Z.ltb_lt]; lia. }
@@ -684,13 +770,13 @@ Qed.
 (* the same on the attributed samples of a history: the forces that the bias would apply in the bins of
    the period, as determined by ANY list of samples, sum to zero *)
 Theorem zero_mean_periodic_samples c (S : list (idx * @vec R)) :
-  c_nd c = 1%nat -> bget (c_periodic c) 0 = true -> c_apply c = true -> c_cap c = false ->
-  rsum (map (fun i => spec_force_samples c S [i] 0) (zrange (zget (c_nx c) 0))) = 0.
+  c_nd c = 1%nat -> bget (c_periodic c) 0 = true -> c_cap c = false ->
+  rsum (map (fun i => spec_force_samples c true S [i] 0) (zrange (zget (c_nx c) 0))) = 0.
 Proof.
-  intros Hnd Hper Happ Hcap.
+  intros Hnd Hper Hcap.
   set (cnt := fun b : idx => cnt_of b S).
   set (sum := fun b : idx => vbuild (c_nd c) (fun k => - fsum_of k b S)).
-  rewrite <- (zero_mean_periodic c cnt sum Hnd Hper Happ Hcap).
+  rewrite <- (zero_mean_periodic c cnt sum Hnd Hper Hcap).
   f_equal. apply map_ext. intros i. symmetry. apply spec_force_of_samples.
   - lia.
   - intros b'. reflexivity.
@@ -712,10 +798,10 @@ Proof.
   - destruct (Rle_dec (- m) 0); lra.
 Qed.
 
-Theorem no_force_below_min c cnt sum b k :
+Theorem no_force_below_min c a cnt sum b k :
   (0 <= c_min c < c_full c)%Z -> (c_cap c = true -> 0 <= vget Rops (c_maxf c) k) ->
   (forall b', (0 <= cnt b' <= c_min c)%Z) ->
-  spec_force c cnt sum b k = 0.
+  spec_force c a cnt sum b k = 0.
 Proof.
   intros Hmf Hcap Hall. unfold spec_force.
   assert (Hr : forall b' k', ramped c cnt sum b' k' = 0).
@@ -724,7 +810,7 @@ Proof.
     apply Z.ltb_ge in E1. assert (Heq : cnt b' = c_min c) by lia.
     destruct (cnt b' <? c_full c)%Z eqn:E2; [|apply Z.ltb_ge in E2; lia].
     rewrite Heq. unfold Rdiv. replace (IZR (c_min c) - IZR (c_min c)) with 0 by lra. lra. }
-  destruct (c_apply c && index_ok c b); [|reflexivity]. cbv zeta.
+  destruct (a && index_ok c b); [|reflexivity]. cbv zeta.
   rewrite Hr.
   assert (Ha : avg_ramped c cnt sum = 0).
   { unfold avg_ramped. rewrite rsum_map_zero by (intros i; apply Hr). unfold Rdiv. lra. }
@@ -737,17 +823,73 @@ Qed.
 (* ---------------------------------------------------------------- non-vacuity *)
 (* wf_cfg and jac_ok hold for a lagged configuration with hideJacobian and applyBias on *)
 Lemma example_wf_lagged :
-  let c := @mkCfg R 1 [0%R] [1%R] [2%Z] [false] 2 1 true true false [0%R] false false [false] true [false] true (fun _ => (1/2)%R) in
-  let h := [@mkIn R [(1/2)%R] [1%R] [0%R] [3%R] false; @mkIn R [(1/2)%R] [0%R] [0%R] [3%R] false] in
-  wf_cfg c /\ jac_ok c /\ c_hidej c = true /\ c_same_step c = false /\ length (ABFModel.trace_of Rops c h) = 2%nat.
+  let c := @mkCfg R 1 [0%R] [1%R] [2%Z] [false] 2 1 true false [0%R] false false [false] true [false] true (fun _ => (1/2)%R) in
+  let h := [@mkIn R [(1/2)%R] [1%R] [0%R] [3%R] false true; @mkIn R [(1/2)%R] [0%R] [0%R] [3%R] false true] in
+  wf_cfg c /\ steady c true h /\ c_hidej c = true /\ c_same_step c = false /\ length (ABFModel.trace_of Rops c h) = 2%nat.
 Proof.
   cbn zeta. split; [|split; [|split; [|split]]]; try reflexivity.
   - unfold wf_cfg. cbn [c_szd]. intros H. discriminate H.
-  - unfold jac_ok, cvapply. cbn [c_apply orb]. intros _ _ k _. reflexivity.
+  - intros _ _. repeat constructor.
 Qed.
 
-(* jac_ok is vacuous without hideJacobian and in the same-step convention *)
-Lemma jac_ok_nohide c : c_hidej c = false -> jac_ok c.
+(* steady is vacuous without hideJacobian and in the same-step convention: applyBias may then be switched
+   at any step *)
+Lemma steady_nohide c a h : c_hidej c = false -> steady c a h.
 Proof. intros H Hh. congruence. Qed.
-Lemma jac_ok_same c : c_same_step c = true -> jac_ok c.
+Lemma steady_same c a h : c_same_step c = true -> steady c a h.
 Proof. intros H _ Hs. congruence. Qed.
+(* and it holds for every history in which applyBias keeps its configured value *)
+Lemma steady_const c a h : Forall (fun i => i_apply i = a) h -> steady c a h.
+Proof. intros H _ _. exact H. Qed.
+
+(* ---------------------------------------------------------------- applyBias kept at its configured value *)
+Definition apply_const (a : bool) (h : list (@abf_in R)) : Prop := Forall (fun i => i_apply i = a) h.
+
+Theorem abf_state_is_sample_sum_const c h b a :
+  wf_cfg c -> apply_const a h ->
+  s_cnt (fst (abf_run Rops c h)) b = cnt_of b (attributed Rops c (ABFModel.trace_of Rops c h)) /\
+  forall k, (k < c_nd c)%nat ->
+    vget Rops (s_sum (fst (abf_run Rops c h)) b) k = - fsum_of k b (attributed Rops c (ABFModel.trace_of Rops c h)).
+Proof. intros Hwf Hc. exact (abf_state_is_sample_sum c h b a Hwf (steady_const c a h Hc)). Qed.
+
+Theorem abf_sum_vector_const c h b a :
+  wf_cfg c -> apply_const a h ->
+  s_sum (fst (abf_run Rops c h)) b
+  = vbuild (c_nd c) (fun k => - fsum_of k b (attributed Rops c (ABFModel.trace_of Rops c h))).
+Proof. intros Hwf Hc. exact (abf_sum_vector c h b a Hwf (steady_const c a h Hc)). Qed.
+
+Theorem stored_gradient_is_minus_mean_const c h b k a :
+  wf_cfg c -> apply_const a h -> (k < c_nd c)%nat ->
+  let s := fst (abf_run Rops c h) in
+  let S := attributed Rops c (ABFModel.trace_of Rops c h) in
+  s_cnt s b = cnt_of b S /\
+  ((0 < cnt_of b S)%Z -> grad_out Rops (s_cnt s) (s_sum s) b k = - mean_force S b k) /\
+  (cnt_of b S = 0%Z -> grad_out Rops (s_cnt s) (s_sum s) b k = 0).
+Proof. intros Hwf Hc Hk. exact (stored_gradient_is_minus_mean c h b k a Hwf (steady_const c a h Hc) Hk). Qed.
+
+Theorem applied_force_is_smoothed_negative_mean_const c h i k a :
+  wf_cfg c -> apply_const a (h ++ [i]) -> (k < c_nd c)%nat -> (0 <= c_min c < c_full c)%Z ->
+  (c_cap c = true -> 0 <= vget Rops (c_maxf c) k) ->
+  vget Rops (o_fabf (snd (abf_step Rops c (fst (abf_run Rops c h)) i))) k
+  = spec_force_samples c a (attributed Rops c (ABFModel.trace_of Rops c (h ++ [i]))) (bins Rops c (i_x i)) k.
+Proof.
+  intros Hwf Hc Hk Hmf Hcap.
+  rewrite (applied_force_is_smoothed_negative_mean c h i k a Hwf (steady_const c a _ Hc) Hk Hmf Hcap).
+  assert (Hi : i_apply i = a).
+  { unfold apply_const in Hc. rewrite Forall_forall in Hc. apply Hc. apply in_or_app. right. left. reflexivity. }
+  rewrite Hi. reflexivity.
+Qed.
+
+Theorem abf_state_with_input_data_const c l h b a :
+  wf_cfg c -> apply_const a h ->
+  let s0 := abf_init_data Rops c l in
+  let r := abf_run_data Rops c l h in
+  let S := attributed Rops c (ABFModel.trace_from Rops c s0 h) in
+  s_cnt (fst r) b = (data_cnt l b + cnt_of b S)%Z /\
+  forall k, (k < c_nd c)%nat ->
+    vget Rops (s_sum (fst r) b) k = data_sum l b k - fsum_of k b S.
+Proof. intros Hwf Hc. exact (abf_state_with_input_data c l h b a Hwf (steady_const c a h Hc)). Qed.
+
+Lemma example_apply_const :
+  apply_const true [@mkIn R [(1/2)%R] [1%R] [0%R] [3%R] false true; @mkIn R [(1/2)%R] [0%R] [0%R] [3%R] false true].
+Proof. repeat constructor. Qed.
